@@ -18,7 +18,7 @@ EXPECTED_PROBES = ["probe.exact_tie_between_arms", "probe.nan_row", "sched.proce
 def generate(rnd, tier, index=0):
     regime = rnd.choice(["exact", "exact", "float"])
     while True:
-        cfg, spare = gen.gen_cfg(rnd, with_np=rnd.random() < 0.7)
+        cfg, spare = gen.gen_cfg(rnd, with_np=rnd.random() < 0.7, scale=True)
         if not (np_class(cfg) == "TreeBandit" and lp_class(cfg) == "EpsilonGreedy>0"):
             break
     cfg["n_jobs"] = rnd.choice([1, 1, 2, 3, -1])
